@@ -3,7 +3,8 @@
 //!   q <hex source>    -> `<module dump> ;; <occurrence ids> => <occ:def:refs,...>` answers of
 //!                        query::definition_location / query::all_references at every identifier
 //!                        occurrence of a local variable (real ServerState)
-//!   rn <hex source>   -> rewrite::rename at every occurrence to a fresh name, and back: model-free
+//!   rn / rnall <hex source> -> rewrite::rename (rn: from <= 3 occurrences of every binding; rnall: from every
+//!                        occurrence) to a fresh name, and back: model-free
 //!                        oracle (parses, same diagnostics, same def/use graph, round trip)
 use samlang_ast::Position;
 use samlang_errors::ErrorSet;
@@ -160,7 +161,7 @@ fn def_of(render: &str) -> HashMap<usize, usize> {
     .collect()
 }
 
-fn rn(src: &str) -> String {
+fn rn(src: &str, cap: Option<usize>) -> String {
   let p = match parse(src) {
     None => return "syntax".to_string(),
     Some(p) => p,
@@ -176,6 +177,9 @@ fn rn(src: &str) -> String {
   // the rename result depends only on (definition, uses): all occurrences of one binding must
   // produce the same text; the expensive checks run once per binding
   let mut per_def: HashMap<usize, String> = HashMap::new();
+  // quick tier: every binding is renamed and fully checked, but "the result does not depend on the
+  // occurrence chosen" is tried from at most `cap` occurrences per binding (all in `rnall`)
+  let mut tried: HashMap<usize, usize> = HashMap::new();
   for (k, (locid, name, _, pos)) in p.occ.iter().enumerate() {
     if name == "this" {
       // `this` is bound by the class, not by an identifier: rename must be refused (C15-F1, fixed)
@@ -185,6 +189,13 @@ fn rn(src: &str) -> String {
       continue;
     }
     let def = *defs.get(locid).unwrap_or(locid);
+    if let Some(c) = cap {
+      let t = tried.entry(def).or_insert(0);
+      if *t >= c {
+        continue;
+      }
+      *t += 1;
+    }
     let new_name = format!("zq{def}");
     let fail = |what: &str, extra: &str| format!("FAIL {} occ={} name={} new={} {}", what, locid, name, new_name, extra);
     let t1 = match rewrite::rename(&mut state, &mref, *pos, &new_name) {
@@ -244,7 +255,8 @@ fn main() {
     let r = catch_unwind(AssertUnwindSafe(|| match t[0] {
       "ssa" => ssa(&arg),
       "q" => q(&arg),
-      "rn" => rn(&arg),
+      "rn" => rn(&arg, Some(3)),
+      "rnall" => rn(&arg, None),
       _ => "bad-op".to_string(),
     }));
     match r {
